@@ -106,8 +106,24 @@ Definition order_card_plain (c : card) : bool :=
 Definition orders_plain (d : fitsdoc) : bool :=
   match d with h0 :: _ => forallb order_card_plain (h_cards h0) | [] => true end.
 
+(* an image named KNOTSi / EXTENTS with a number of axes other than 1 (possible through EXTNAME edits, or when the primary array itself
+   carries such a name): before fix C07_6 the code handed a single pixel coordinate to fits_read_pix for it (stack over-read inside
+   cfitsio); after it the knot case is refused and the extents case ignored. FitsModel.read_knots / read_extents look at the first
+   axis only. Such documents are declined. *)
+Definition one_axis (h : hdu) : bool :=
+  match hdu_layout (h_cards h) with Ok ly => (length (l_axes ly) =? 1)%nat | Error _ => true end.
+Definition vectors_1d (d : fitsdoc) : bool :=
+  match d with
+  | h0 :: _ =>
+      let nd := match hdu_layout (h_cards h0) with Ok ly => length (l_axes ly) | Error _ => 0%nat end in
+      forallb (fun i => match find_hdu (keyn s_KNOTS i) d with Some h => one_axis h | None => true end) (map N.of_nat (seq 0 nd)) &&
+      match find_hdu s_EXTENTS d with Some h => one_axis h | None => true end
+  | [] => true
+  end.
+
 Definition checked_with (cs : list rcheck) (d : fitsdoc) : rres :=
   if negb (orders_plain d) then RReject EUnsupported else
+  if negb (vectors_1d d) then RReject EUnsupported else
   match of_doc d with
   | Error e => RReject e
   | Ok t => match first_failing t cs with Some c => RInvalid c | None => RAccept t end
@@ -227,4 +243,5 @@ Definition read_step (reader : list N -> rres) (s : objstate) (b : list N) : obj
 Definition read_bytes_unchecked (b : list N) : rres :=
   let d := fst (decode_prefix b) in
   if negb (orders_plain d) then RReject EUnsupported else
+  if negb (vectors_1d d) then RReject EUnsupported else
   match of_doc d with Ok t => RAccept t | Error e => RReject e end.
